@@ -41,6 +41,7 @@ class Preemptor:
         self._site_seen: set[tuple[str, int]] = set()
         # ordinals of the first ``early_k`` executions of every distinct line (counting passes)
         self.once = False
+        self._with_entered: set = set()
         self.early_k = 0
         self.early: list[int] = []
         self._site_count: dict[tuple[str, int], int] = {}
@@ -51,6 +52,7 @@ class Preemptor:
         self._site_seen = set()
         self.early = []
         self._site_count = {}
+        self._with_entered = set()
         old = sys.gettrace()
         sys.settrace(self._global)
         try:
@@ -64,6 +66,27 @@ class Preemptor:
             return self._local
         return None
 
+    _WITH_LINES: dict = {}
+
+    def _track_with(self, frame) -> bool:
+        """True if this line event is the second visit of a ``with`` line in this frame, i.e. the
+        normal exit of the block, just before ``__exit__`` is called."""
+        fk = (frame.f_code.co_filename, frame.f_lineno)
+        is_with = Preemptor._WITH_LINES.get(fk)
+        if is_with is None:
+            import linecache
+
+            src = linecache.getline(fk[0], fk[1]).lstrip()
+            is_with = Preemptor._WITH_LINES[fk] = src.startswith(("with ", "async with "))
+        if not is_with:
+            return False
+        key = (id(frame), frame.f_lineno)
+        if key in self._with_entered:
+            self._with_entered.discard(key)
+            return True
+        self._with_entered.add(key)
+        return False
+
     def _local(self, frame, event, arg):
         if event == "line":
             k = self.ordinal
@@ -72,6 +95,13 @@ class Preemptor:
                 sys.settrace(None)
                 return None
             cb = self.points.get(k)
+            with_exit = self._track_with(frame)
+            if cb is interrupt_now and with_exit:
+                # between the end of a with-body and the call of __exit__ the interpreter itself is
+                # at work: an exception raised there bypasses the context manager (a known CPython
+                # window for signals).  The simulator does not interrupt inside the interpreter's own
+                # context-manager protocol; the point simply does not fire.
+                cb = None
             key = (frame.f_code.co_filename, frame.f_lineno)
             if self.early_k:
                 c = self._site_count.get(key, 0)
